@@ -58,7 +58,46 @@ def missing_block(text):
     return out
 
 
+def eval_folder_case(ctx, case):
+    """a whole folder (plain, or the root of a nested history) renamed or moved: every file below it moved with it"""
+    base, fmts = case["base"], case["fmts"]
+    v = []
+    stats = {"cmds": 0}
+    sig = {"layout": case["layout"], "folder": True, "nested_root": bool(case.get("nested_root"))}
+
+    def V(kind, detail, **extra):
+        v.append(Viol(PROP, kind, dict(sig, **extra), detail, case))
+    t = base
+    for src, dst in case["mv"]:
+        t = ops.edit(t, ["mv", src, dst])
+    desc = f"{case['layout']}: folder(s) renamed {case['mv']}"
+    now = sub.NOW0 + 100
+    r0, _ = run(ctx, t, ops.create("", fmts), now); stats["cmds"] += 1
+    if r0.exit != 10:
+        V("plain-create-not-10", f"{desc}: create without -dr exits {r0.exit}, expected 10", exit=r0.exit)
+    r1, post = run(ctx, t, ops.create("", fmts, dr=True), now + 10); stats["cmds"] += 1
+    if r1.exc is not None or r1.exit != 0:
+        V("dr-create-fails", f"{desc}: create -dr exit {r1.exit} {r1.exc}\n{r1.err[-400:]}", exit=r1.exit, exc=(r1.exc or "").split(":")[0] or None)
+        return v, stats
+    mb = missing_block(r1.err)
+    if mb:
+        V("dr-reports-missing", f"{desc}: create -dr reports missing {mb}")
+    for fo in (["verify", {"root": ""}], ["diff", {"root": ""}], ops.create("", fmts)):
+        r2, _ = run(ctx, post, fo, now + 20); stats["cmds"] += 1
+        if r2.exit != 0 or r2.exc:
+            V("followup-rejects", f"{desc}: after create -dr, {fo[0]} exits {r2.exit} {r2.exc or ''}\n{r2.err[-300:]}", cmd=fo[0], exit=r2.exit)
+    # a file below the renamed folder altered afterwards still fails verification
+    moved = sorted(p for p, c in ref.media(post).items() if c is not DIR and any(p.startswith(d + "/") for _, d in case["mv"]))
+    for n in moved[:2]:
+        r3, _ = run(ctx, ops.edit(post, ["write", n, post[n] + b" ALTERED"]), ["verify", {"root": ""}], now + 30); stats["cmds"] += 1
+        if r3.exit != 11:
+            V("altered-renamed-file-passes", f"{desc}: {n} altered after the rename generation: verify exits {r3.exit}", exit=r3.exit)
+    return v, stats
+
+
 def eval_case(ctx, case):
+    if "mv" in case:
+        return eval_folder_case(ctx, case)
     base, mapping, fmts = case["base"], case["mapping"], case["fmts"]
     steps = case.get("steps") or [mapping]
     v = []
@@ -225,12 +264,29 @@ def main(tier, seed):
         mp = {f: target(f, k, NEST, hd[f]) for f, k in zip(files, kinds)}
         if len(set(mp.values())) == len(mp):
             cases.append({"layout": "nested-child", "base": nbase, "mapping": mp, "fmts": ["xxh64"]})
+    # whole folders renamed / moved (same format): plain folders, nested roots one and two levels down
+    FT = {"p": DIR, "p/a.txt": b"content of a", "p/b.txt": b"content of b (distinct)", "p/s": DIR, "p/s/d.txt": b"content of d", "q": DIR,
+          "q/c.txt": b"content of c, distinct too"}
+    NT = {"A": DIR, "A/a.txt": b"a1", "A/AA": DIR, "A/AA/x.txt": b"xx", "A/AA/y": DIR, "A/AA/y/z.txt": b"zz", "r.txt": b"r", "Q": DIR, "Q/q.txt": b"qq"}
+    try:
+        fb = ops.build(ctx, FT, [c("", ["xxh64"])], expect=[0])
+        nb = ops.build(ctx, NT, [c("A/AA", ["xxh64"]), c("A", ["xxh64"]), c("", ["xxh64"])], expect=[0, 0, 0])
+        for mv in ([["p", "p2"]], [["p/s", "p/s2"]], [["p/s", "q/s"]], [["p", "q/p"]], [["p", "p2"], ["q", "q2"]]):
+            cases.append({"layout": "folders-plain", "base": fb, "mv": mv, "fmts": ["xxh64"], "mapping": {}})
+        for mv in ([["A/AA", "A/AB"]], [["A", "B"]], [["A/AA/y", "A/AA/y2"]], [["Q", "Q2"]]):   # (within one parent history)
+            cases.append({"layout": "folders-nested", "base": nb, "mv": mv, "fmts": ["xxh64"], "mapping": {}, "nested_root": mv[0][0] in ("A", "A/AA")})
+    except ops.ScenarioFailure as f:
+        eng.notes.setdefault("skipped_scenarios", []).append(str(f)[:300])
     res = eng.pmap(work, cases)
     trans = 0
     states = set()
     for case, (vs, st) in zip(cases, res):
         eng.add_viols(vs)
         trans += st["cmds"]
+        if "mv" in case:
+            eng.outcome((case["layout"], str(case["mv"]), "viol" if vs else "ok"))
+            states.add((case["layout"], str(case["mv"])))
+            continue
         n = sum(o != n for o, n in case["mapping"].items())
         eng.outcome((case["layout"], n, "viol" if vs else "ok"))
         states.add((case["layout"], tuple(sorted(case["mapping"].items())), len(case.get("steps") or [0]), bool(case.get("late"))))
@@ -243,7 +299,9 @@ def main(tier, seed):
                    "recorded in a different format and the rename generation asks for yet another one, a nested child history, and chained "
                    "renames over 2 (thorough 3) generations; per rename step: plain create => 10 naming the old paths and verify "
                    "!= 0; create -dr => exit 0, new path recorded with previousPath = former path, nothing reported missing; then "
-                   "verify / diff / create accept the tree; altering a renamed file => verify 11"}
+                   "verify / diff / create accept the tree; altering a renamed file => verify 11; plus whole folders renamed or moved under the "
+                   "recorded format (plain folders, nested history roots one and two levels down, a folder inside a nested "
+                   "history's own tree), each staying within its parent history: create -dr 0, nothing missing, follow-ups accept, an altered file below still fails"}
     eng.assumptions.append("rename targets are fresh names (a swap of two recorded names is indistinguishable from two altered files and is outside the alphabet)")
     return eng.finish(cov, _eval_only)
 
